@@ -8,6 +8,7 @@ RULE = ('rrect correspondence rr_styled (model draw_styled call list rendered on
         'draw_iter, on large and on clipping target boxes; pixels() yields no point twice; random small/medium shapes x styles incl. stroke colour present '
         'with width 0 (pixels() branches on stroke_color, draw() on effective_stroke_color) and fill only with width > 0.')
 PARTIAL = []
+ASSUMPTIONS = ['rrect: see the C06 rrect part (styled_ok range; class K06_rrect_fill_outside_stroke excluded where stated)']
 
 
 def cases(tier, rng):
